@@ -15,6 +15,10 @@ type BasicPrivateIssuer struct {
 }
 
 func NewBasicPrivateIssuer(key *oprf.PrivateKey) *BasicPrivateIssuer {
+	// oprf.PrivateKey computes and caches its public key on first use, without
+	// synchronisation. Do that here, before the issuer can be shared between goroutines.
+	key.Public()
+
 	return &BasicPrivateIssuer{
 		tokenKey: key,
 	}
